@@ -130,6 +130,17 @@ def check_symmetry(case):
     return {"nontrivial": bool(used and len(A) >= 3 and np.abs(A - A[0]).max() > 1e-9), "labels": [case["sys"], "edge" if n_edge else "noedge"], "residual": e / tol}
 
 
+def _single_limit(case, system):
+    """Single-orientation textures in several generated frames (float32 rounding of the
+    quaternions differs from frame to frame)."""
+    for b in [case["base"]] + list(case.get("bases", [])):
+        base = gen.rot(b)
+        for reps in (2, 9):
+            ms = _m(np.repeat(base[None], reps, axis=0), system)
+            require(np.isfinite(ms) and ms >= 0.95, f"single-orientation texture ({reps} grains) has M = {ms:.4f}, not >= 0.95 ({case['sys']})", ms)
+            require(ms <= 1 + 1e-3, f"single-orientation texture has M = {ms!r} > 1 ({case['sys']})")
+
+
 def check_limits(case):
     system = _sys(case)
     n = case["n"]
@@ -139,19 +150,14 @@ def check_limits(case):
     # sampling level of a correct index for this very texture (independent reference)
     thr = 3.0 * ref_mindex.m_index(A, case["sys"]) + 0.03
     require(m <= thr, f"uniformly random texture of {n} grains has M = {m:.4f} > sampling threshold {thr:.4f} ({case['sys']})", m)
-    base = gen.rot(case["base"])
-    ms = _m(np.repeat(base[None], max(2, n // 4), axis=0), system)
-    require(ms >= 0.95, f"single-orientation texture has M = {ms:.4f} < 0.95 ({case['sys']})", ms)
-    require(ms <= 1 + 1e-3, f"single-orientation texture has M = {ms!r} > 1 ({case['sys']})")
+    _single_limit(case, system)
     return {"nontrivial": True, "labels": [case["sys"], f"n{n // 50 * 50}"], "residual": m / thr}
 
 
 def check_single_only(case):
     """Known finding R1/R2 for the uniform limit: the single-orientation limit still holds."""
     system = _sys(case)
-    base = gen.rot(case["base"])
-    ms = _m(np.repeat(base[None], max(2, case["n"] // 4), axis=0), system)
-    require(0.95 <= ms <= 1 + 1e-3, f"single-orientation texture has M = {ms:.4f} outside [0.95, 1] ({case['sys']})", ms)
+    _single_limit(case, system)
     return {"nontrivial": True, "labels": [case["sys"], "single_only"], "residual": 0.0}
 
 
@@ -223,7 +229,7 @@ ORACLES = [
     Oracle(
         "uniform_and_single",
         st.fixed_dictionaries(
-            {"sys": st.sampled_from(SYSTEMS), "n": st.integers(60, 160), "seed": gen.small_seed, "base": gen.rotation_spec()}
+            {"sys": st.sampled_from(SYSTEMS), "n": st.integers(60, 160), "seed": gen.small_seed, "base": gen.rotation_spec(), "bases": st.lists(gen.generic_rotation_spec(), min_size=6, max_size=6)}
         ),
         check_limits,
         classify=by_sys,
